@@ -9,7 +9,7 @@ JUDGE = ("C01.",)
 PROGRAMS = ["forms"]
 RUNS = {"quick": 3000, "thorough": 150000}
 
-GEN_FNS = ("gen", "genloop", "genretry", "genyf")
+GEN_FNS = ("gen", "genloop", "genretry", "genstop", "genyf")
 
 
 def selectable(fnir):
@@ -87,6 +87,9 @@ def gen(rng, tier, quarantine=()):
                 k = rng.choice(["gen_next"] * 4 + ["gen_send"] * 3 + ["gen_throw"] * 2 + ["gen_close", "gen_drop"])
                 ops.append({"op": k, "gen": g, "tape": gen_tape(rng, 8),
                             "faults": gen_faults(rng, 8, rng.choice([0, 0, 1]))})
+                if k == "gen_throw" and rng.random() < 0.4:
+                    # StopIteration itself thrown in: a generator may catch it like anything else
+                    ops[-1]["exc"] = "stop"
         else:
             op = call_shape(rng, qual, fnir, inst)
             op["tape"] = gen_tape(rng, rng.randint(0, tl))
